@@ -7,6 +7,8 @@ def dispatch (op : String) (args : List Sx) : String :=
   | "enc" => opEnc args
   | "dec" => opDec args
   | "spec" => opSpec args
+  | "project" => opProject args
+  | "c07" => opC07 args
   | "rtder" => opRtDer args
   | "refdec" => opRefDec args
   | "refdecs" => opRefDecStrict args
